@@ -39,6 +39,7 @@ type Contract struct {
 	Trusted    bool // body not verified (external / assumed contract)
 	QuietFrame bool // modifies clause is checked and propagated, but no automatic frame facts are assumed at call sites (the contract states its frame explicitly)
 	SplitPaths bool // top-level if statements are followed path by path instead of merged
+	Dispatch   map[string]string // func-valued variable -> literal key: calls through it are calls of that closure (its code is checked at the call)
 	TailSplit  bool // a top-level if followed only by the final return is not merged: the postconditions are checked per branch
 	Pure       bool
 	Params     []GhostParam // for trusted externals declared with a signature
@@ -112,7 +113,7 @@ type SpecFile struct {
 
 var clauseKw = map[string]bool{
 	"func": true, "requires": true, "ensures": true, "assigns": true, "modifies": true, "loop": true, "decreases": true,
-	"ghost": true, "after": true, "before": true, "uf": true, "lemma": true, "axiom": true, "trusted": true, "pure": true, "split-paths": true, "tail-split": true, "quietframe": true, "opaque": true, "pred": true, "xpred": true,
+	"ghost": true, "after": true, "before": true, "uf": true, "lemma": true, "axiom": true, "trusted": true, "pure": true, "split-paths": true, "tail-split": true, "dispatch": true, "quietframe": true, "opaque": true, "pred": true, "xpred": true,
 	"sort": true, "closedtype": true, "immutable": true, "ghostvar": true, "ghostfield": true, "free": true, "extern": true, "assume-note": true, "end": true,
 }
 
@@ -282,6 +283,20 @@ func ParseSpecFile(path, pkgName, pkgPath string, sf *SpecFile) error {
 			if cur != nil {
 				cur.TailSplit = true
 			}
+		case "dispatch":
+			// dispatch <var> "<literal key>"
+			f2 := strings.Fields(rest)
+			if cur == nil || len(f2) != 2 {
+				return fmt.Errorf("%s:%d: dispatch <var> \"<literal key>\"", path, rc.line)
+			}
+			lk, err := strconv.Unquote(f2[1])
+			if err != nil {
+				return fmt.Errorf("%s:%d: dispatch: %v", path, rc.line, err)
+			}
+			if cur.Dispatch == nil {
+				cur.Dispatch = map[string]string{}
+			}
+			cur.Dispatch[f2[0]] = lk
 		case "trusted":
 			if cur != nil {
 				cur.Trusted = true
